@@ -140,6 +140,18 @@ def conditionalize (d : Dist) (idxs vals : List Nat) : Except Err Dist := do
   if s = 0 then throw .divZero
   ctor (raw.map (· / s)) sh epsValidate
 
+/-! ## ProbDist.__getitem__ (prob_dist.py): `ps.reshape(shape)[i0][i1]…` for a full-length tuple is the row-major entry -/
+
+/-- `ProbDist.__getitem__(tuple)` for a tuple with one index per axis; `none` = IndexError / ValueError.
+(`reshape` needs `len(ps) = prod shape`; each index must be in range; numpy's negative indices are not modelled.) -/
+def probDistGet (ps : List Rat) (shape idx : List Nat) : Option Rat :=
+  if ps.length ≠ prod shape then none
+  else if idx.length ≠ shape.length then none
+  else if (shape.zip idx).any (fun li => li.1 ≤ li.2) then none
+  else match serialFromMulti shape idx with
+    | some s => ps[s]?
+    | none => none
+
 /-! ## driver -/
 
 def showDist (r : Except Err Dist) : String :=
@@ -161,6 +173,13 @@ def handle (args : List String) : Option String :=
       match serialFromMulti lens idx with
       | some s => some s!"ok {s}"
       | none => some "err lenMismatch"
+  | ["pdget", ps, shape, idx] => do
+      let ps ← parseList? parseRat? ps
+      let shape ← parseList? parseNat? shape
+      let idx ← parseList? parseNat? idx
+      match probDistGet ps shape idx with
+      | some v => some s!"ok {showRat v}"
+      | none => some "err index"
   | ["ctor", ps, shape, eps] => do
       let ps ← parseList? parseRat? ps
       let shape ← parseList? parseNat? shape
